@@ -120,6 +120,31 @@ func c10Step(r *vRun, i int, op vOp) (bool, *drv.Failure) {
 		return false, drv.Failf("unexpected-error", "iter-open:"+errSig(err), "op %d open iterator: %v", i, err)
 	}
 	defer func() { _ = it.Close() }()
+	// The public iterator (cesium.Iterator over the stream iterator's command dispatch)
+	// is driven with the same commands and must agree with the per-channel iterator on
+	// every acknowledgement and every returned frame. Command lists with auto-span
+	// steps are not mirrored (recorded known finding: they can panic, which inside the
+	// stream iterator's goroutine would take the process down).
+	var pit *Iterator
+	mirrored := true
+	for _, c := range op.Cmds {
+		if c.C == "anext" || c.C == "aprev" {
+			mirrored = false
+		}
+	}
+	if mirrored {
+		pit, err = r.db.OpenIterator(IteratorConfig{Channels: []ChannelKey{ChannelKey(key)}, Bounds: bounds, AutoChunkSize: op.Chunk})
+		if err != nil {
+			return false, drv.Failf("unexpected-error", "iter-open-public:"+errSig(err), "op %d open public iterator: %v", i, err)
+		}
+		defer func() { _ = pit.Close() }()
+	}
+	differs := func(ci int, c vCmd, pok, uok bool) *drv.Failure {
+		if pok != uok {
+			return drv.Failf("iter-public-differs", c.C+":ack", "op %d iter ch %d cmd %d %s(ts=%d span=%d): the public iterator acknowledged %v, the channel's iterator %v", i, key, ci, c.C, c.TS, c.Span, pok, uok)
+		}
+		return nil
+	}
 	what := func(ci int, c vCmd) string {
 		return fmt.Sprintf("op %d iter ch %d (%s) bounds [%d,%d) chunk %d cmd %d %s(ts=%d span=%d)", i, key, ch.DT, bounds.Start, bounds.End, op.Chunk, ci, c.C, c.TS, c.Span)
 	}
@@ -149,10 +174,18 @@ func c10Step(r *vRun, i int, op vOp) (bool, *drv.Failure) {
 			}
 			bounds = telem.TimeRange{Start: telem.TimeStamp(c.A), End: telem.TimeStamp(c.B)}
 			it.SetBounds(bounds)
+			if pit != nil {
+				pit.SetBounds(bounds)
+			}
 			lastDir, fwdRun, bwdRun, judged, walkFwd, walkBwd = "", false, false, false, false, false
 			continue
 		case "first":
 			judged = it.SeekFirst(r.ctx)
+			if pit != nil {
+				if f := differs(ci, c, pit.SeekFirst(), judged); f != nil {
+					return false, f
+				}
+			}
 			v := it.View()
 			if n := r.model.Count(key, int64(bounds.Start), int64(v.Start)); n > 0 && v.Start > bounds.Start {
 				return false, drv.Failf("iter-seek", "first-skips:"+dtClass(ch), "%s: SeekFirst positioned the view at %d but %d stored samples lie in [%d,%d)", what(ci, c), v.Start, n, bounds.Start, v.Start)
@@ -162,6 +195,11 @@ func c10Step(r *vRun, i int, op vOp) (bool, *drv.Failure) {
 			continue
 		case "last":
 			judged = it.SeekLast(r.ctx)
+			if pit != nil {
+				if f := differs(ci, c, pit.SeekLast(), judged); f != nil {
+					return false, f
+				}
+			}
 			v := it.View()
 			if n := r.model.Count(key, int64(v.End), int64(bounds.End)); n > 0 && v.End < bounds.End {
 				return false, drv.Failf("iter-seek", "last-skips:"+dtClass(ch), "%s: SeekLast positioned the view at %d but %d stored samples lie in [%d,%d)", what(ci, c), v.End, n, v.End, bounds.End)
@@ -171,10 +209,20 @@ func c10Step(r *vRun, i int, op vOp) (bool, *drv.Failure) {
 			continue
 		case "le":
 			judged = it.SeekLE(r.ctx, clamp(c.TS))
+			if pit != nil {
+				if f := differs(ci, c, pit.SeekLE(clamp(c.TS)), judged); f != nil {
+					return false, f
+				}
+			}
 			lastDir, fwdRun, bwdRun, walkFwd, walkBwd = "", false, false, false, false
 			continue
 		case "ge":
 			judged = it.SeekGE(r.ctx, clamp(c.TS))
+			if pit != nil {
+				if f := differs(ci, c, pit.SeekGE(clamp(c.TS)), judged); f != nil {
+					return false, f
+				}
+			}
 			lastDir, fwdRun, bwdRun, walkFwd, walkBwd = "", false, false, false, false
 			continue
 		}
@@ -196,6 +244,28 @@ func c10Step(r *vRun, i int, op vOp) (bool, *drv.Failure) {
 		}()
 		if pan != nil {
 			return false, drv.Failf("iter-panic", c.C+":"+dtClass(ch)+":"+drv_firstLine(fmt.Sprint(pan)), "%s: panic: %v (view before %v)", what(ci, c), pan, prev)
+		}
+		if pit != nil {
+			var pok bool
+			if fwd {
+				pok = pit.Next(span)
+			} else {
+				pok = pit.Prev(span)
+			}
+			if f := differs(ci, c, pok, okStep); f != nil {
+				return false, f
+			}
+			if okStep {
+				ug, pg := decodeVals(it.Value().Get(ChannelKey(key))), decodeVals(pit.Value().Get(ChannelKey(key)))
+				same := len(ug) == len(pg)
+				for x := 0; same && x < len(ug); x++ {
+					same = string(ug[x]) == string(pg[x])
+				}
+				if !same {
+					return false, drv.Failf("iter-public-differs", c.C+":frame", "%s: the public iterator returned %s, the channel's iterator %s", what(ci, c), shortVals(pg), shortVals(ug))
+				}
+			}
+			r.st.Probe("iter_public_mirrored_step")
 		}
 		v := it.View()
 		kind := c.C
